@@ -12,8 +12,30 @@ LEVEL = 'proof'
 MARKERS = (223255, 224255, 225255, 232255)
 
 
-def flags_of(ids):
+def expanded_ids(ids, version=33):
+    """The ids in processing order with Table D sequences expanded (operators hidden in a sequence count)."""
+    try:
+        t = B.template_from_ids(ids, version)
+    except Exception:
+        return list(ids)
+    out = []
+
+    def walk(ms):
+        for d in ms:
+            if hasattr(d, 'members') and d.id >= 300000:
+                walk(d.members or [])
+            elif hasattr(d, 'members'):
+                out.append(d.id)
+                walk(d.members or [])
+            else:
+                out.append(d.id)
+    walk(t.members)
+    return out
+
+
+def flags_of(ids, version=33):
     """Structural flags used to recognise the recorded findings."""
+    ids = expanded_ids(ids, version)
     depth204 = 0
     seen_203000 = False
     seen_203def = False
@@ -112,7 +134,7 @@ def compare_with_model(i, m):
 def check_case(ctx, c, k_cache):
     case = {'ids': c['ids'], 'seed': c['seed'], 'forced': c['forced'], 'nsub': c['nsub'], 'version': c['version'],
             'edition': c['edition'], 'compressed': c['compressed']}
-    fl = flags_of(c['ids'])
+    fl = flags_of(c['ids'], c.get('version', 33))
     fl['scoped'] = c.get('scoped', True)
     fl['zero_count_bitmap'] = zero_count_bitmap(c.get('impl_dec'))
     e = c['impl_enc']
@@ -149,7 +171,7 @@ def check_case(ctx, c, k_cache):
 def save_load_case(ctx, c, di):
     case = {'ids': c['ids'], 'seed': c['seed'], 'forced': c['forced'], 'nsub': c['nsub'], 'version': c['version'],
             'edition': c['edition'], 'compressed': c['compressed']}
-    fl = flags_of(c['ids'])
+    fl = flags_of(c['ids'], c.get('version', 33))
     fl['scoped'] = c.get('scoped', True)
     # pseudo descriptors (associated / skipped local) in the decoded labels: D7
     fl['has_pseudo_descriptor'] = di[0] == 'ok' and any(l[:1] in 'AS' for ls in di[2] for l in ls)
@@ -230,7 +252,7 @@ def run(ctx):
         ctx.dist['cache-max-%d' % k_cache] += 1
         with lib.time_limit(300):
             di = check_case(ctx, c, k_cache)
-        fl = flags_of(c['ids'])
+        fl = flags_of(c['ids'], c.get('version', 33))
         if di is not None and di[0] == 'ok' and not (fl['marker_under_204'] or fl['marker_after_203000']
                                                      or zero_count_bitmap(di)):
             good.append((c, di))
@@ -257,7 +279,7 @@ def run(ctx):
             ctx.dist['history-decodes'] += 1
             if c.get('scoped', True) and not same_dec(di, got):
                 ctx.violation(dict(kind='C08-cache-history', case={'ids': c['ids'], 'seed': c['seed'], 'forced': c['forced'],
-                                                                   'nsub': c['nsub'], 'cache_max': k}, **flags_of(c['ids'])),
+                                                                   'nsub': c['nsub'], 'cache_max': k}, **flags_of(c['ids'], c.get('version', 33))),
                               'decode through a shared compiled-template cache (max %d) differs from a fresh decode' % k)
     ctx.partial = ['compile_exec: the unbounded Coq statement is proved for straight-line and replication fragments (see C08.v); '
                    'templates with marker operators under 204YYY / after 203000 / zero-count bitmap loops are recorded findings']
